@@ -1,0 +1,274 @@
+//go:build verif
+
+package main
+
+import (
+	"bytes"
+	debugelf "debug/elf"
+	"fmt"
+	"io"
+	"mltwist/internal/elf"
+	"mltwist/pkg/model"
+	"os"
+	"os/exec"
+	"strings"
+	"time"
+)
+
+// ELF loading (property C20).
+//
+//	elf <hex of the whole file> <k> <addr1> ... <addrk>
+//	    writes the bytes to a temporary file and prints
+//	        <view> ;; <outcome>
+//	    <view> is what the harness itself obtains from debug/elf for that file:
+//	        view E                                    (elf.Open fails)
+//	        view <type> <entry> <ns> (<type> <flags> <addr> <size> <size after Data()> <data>)...
+//	             <np> (<type> <vaddr> <filesz> <memsz> <data>)...
+//	    where <data> is the result of Section.Data() resp. io.ReadAll(Prog.Open()):
+//	    hex, "-" for no bytes, "E" for an error.
+//	    <outcome> is what package mltwist/internal/elf does with the file:
+//	        err:open | err:type                       (NewParser)
+//	        ok <entry> code <R> mem <R> addr <k> (<c> <m>)...
+//	    <R> = err:<class> | <n> (<begin> <hex>)...   (MachineCode, Memory)
+//	    <c>, <m> = answer of Memory.Address(addr) on the code resp. program
+//	    memory: "none" (nil), hex, or "x" when that memory does not exist.
+//	    A file whose view asks for more than maxInProcessAlloc bytes of zero
+//	    fill is not loaded in-process: outcome "skipped:alloc".
+//	elfsub <hex> <k> <addr>...
+//	    same, but the outcome is computed by a child process of this harness
+//	    (op elfout) under a virtual memory limit; a child that dies yields the
+//	    outcome "CRASH", a recovered panic "PANIC".
+//	elfout <hex> <k> <addr>...
+//	    the outcome alone.
+
+const maxInProcessAlloc = 1 << 24
+
+// subprocess limits: virtual memory in KiB (ulimit -v) and run time.
+const (
+	subVMemKiB = 2 << 20
+	subTimeout = 60 * time.Second
+)
+
+func withTempFile(content []byte, f func(path string) string) string {
+	tf, err := os.CreateTemp("", "verif-elf-*")
+	if err != nil {
+		panic(parseError("cannot create temporary file"))
+	}
+	path := tf.Name()
+	defer os.Remove(path)
+	if _, err := tf.Write(content); err != nil {
+		tf.Close()
+		panic(parseError("cannot write temporary file"))
+	}
+	if err := tf.Close(); err != nil {
+		panic(parseError("cannot close temporary file"))
+	}
+	return f(path)
+}
+
+func fmtData(bs []byte, err error) string {
+	if err != nil {
+		return "E"
+	}
+	return fmtHex(bs)
+}
+
+// elfView prints the debug/elf view of the file and the largest zero fill
+// any PT_LOAD header asks for.
+func elfView(path string) (string, uint64) {
+	f, err := debugelf.Open(path)
+	if err != nil {
+		return "view E", 0
+	}
+	defer f.Close()
+
+	var sb strings.Builder
+	var maxFill uint64
+	fmt.Fprintf(&sb, "view %d %d %d", uint16(f.Type), f.Entry, len(f.Sections))
+	for _, s := range f.Sections {
+		size := s.Size
+		data, err := s.Data()
+		fmt.Fprintf(&sb, " %d %d %d %d %d %s", uint32(s.Type), uint32(s.Flags), s.Addr, size, s.Size,
+			fmtData(data, err))
+	}
+	fmt.Fprintf(&sb, " %d", len(f.Progs))
+	for _, p := range f.Progs {
+		data, err := io.ReadAll(p.Open())
+		fmt.Fprintf(&sb, " %d %d %d %d %s", uint32(p.Type), p.Vaddr, p.Filesz, p.Memsz, fmtData(data, err))
+		if p.Type == debugelf.PT_LOAD && p.Memsz >= p.Filesz && err == nil {
+			if fill := p.Memsz - uint64(len(data)); fill > maxFill {
+				maxFill = fill
+			}
+		}
+	}
+	return sb.String(), maxFill
+}
+
+func elfErrClass(err error) string {
+	s := err.Error()
+	switch {
+	case strings.Contains(s, "cannot open file"):
+		return "err:open"
+	case strings.Contains(s, "is not an executable ELF file"):
+		return "err:type"
+	case strings.Contains(s, "cannot read section"), strings.Contains(s, "cannot read program section"):
+		return "err:read"
+	case strings.Contains(s, "size of ELF section and read bytes differ"):
+		return "err:size"
+	case strings.Contains(s, "program section in memory less then in file"):
+		return "err:memsz"
+	case strings.Contains(s, "no non-empty memory blocks found"):
+		return "err:empty"
+	case strings.Contains(s, "memory creation failed") && strings.Contains(s, "overlap"):
+		return "err:overlap"
+	case strings.Contains(s, "memory creation failed") && strings.Contains(s, "address space"):
+		return "err:wrap"
+	}
+	return "err:other"
+}
+
+func fmtElfMemory(m *elf.Memory, err error) string {
+	if err != nil {
+		return elfErrClass(err)
+	}
+	var sb strings.Builder
+	fmt.Fprintf(&sb, "%d", len(m.Blocks))
+	for _, b := range m.Blocks {
+		fmt.Fprintf(&sb, " %d %s", b.Begin(), fmtHex(b.Bytes()))
+	}
+	return sb.String()
+}
+
+func fmtLookup(m *elf.Memory, a uint64) string {
+	if m == nil {
+		return "x"
+	}
+	bs := m.Address(model.Addr(a))
+	if bs == nil {
+		return "none"
+	}
+	return fmtHex(bs)
+}
+
+// elfOutcome loads the file with package mltwist/internal/elf.
+func elfOutcome(path string, addrs []uint64) string {
+	p, err := elf.NewParser(path)
+	if err != nil {
+		return elfErrClass(err)
+	}
+	defer p.Close()
+
+	code, cerr := p.MachineCode()
+	mem, merr := p.Memory()
+
+	var sb strings.Builder
+	fmt.Fprintf(&sb, "ok %d code %s mem %s addr %d", p.Entrypoint(), fmtElfMemory(code, cerr),
+		fmtElfMemory(mem, merr), len(addrs))
+	for _, a := range addrs {
+		fmt.Fprintf(&sb, " %s %s", fmtLookup(code, a), fmtLookup(mem, a))
+	}
+	return sb.String()
+}
+
+func (t *tokens) addrList() []uint64 {
+	n := t.int()
+	if n < 0 || n > 1<<16 {
+		panic(parseError("bad address count"))
+	}
+	as := make([]uint64, n)
+	for i := range as {
+		as[i] = t.uint()
+	}
+	return as
+}
+
+// selfPath is the path of the running harness binary.
+func selfPath() string {
+	p, err := os.Executable()
+	if err != nil {
+		panic(parseError("cannot find own executable"))
+	}
+	return p
+}
+
+// runLimited runs argv under a virtual memory limit and a timeout with the
+// given standard input; it returns stdout, stderr, the exit status (-1: killed
+// by a signal or timeout) and whether the timeout struck.
+func runLimited(argv []string, stdin []byte) (string, string, int, bool) {
+	script := fmt.Sprintf("ulimit -v %d; ulimit -c 0; exec \"$@\"", subVMemKiB)
+	args := append([]string{"-c", script, "sh"}, argv...)
+	cmd := exec.Command("/bin/sh", args...)
+	cmd.Stdin = bytes.NewReader(stdin)
+	var so, se bytes.Buffer
+	cmd.Stdout = &so
+	cmd.Stderr = &se
+	cmd.Env = append(os.Environ(), "GOTRACEBACK=single")
+	if err := cmd.Start(); err != nil {
+		panic(parseError("cannot start subprocess"))
+	}
+	done := make(chan error, 1)
+	go func() { done <- cmd.Wait() }()
+	timedOut := false
+	var err error
+	select {
+	case err = <-done:
+	case <-time.After(subTimeout):
+		timedOut = true
+		cmd.Process.Kill()
+		err = <-done
+	}
+	status := 0
+	if err != nil {
+		status = -1
+		if ee, ok := err.(*exec.ExitError); ok && ee.Exited() {
+			status = ee.ExitCode()
+		}
+	}
+	return so.String(), se.String(), status, timedOut
+}
+
+// subOp runs one operation line in a child harness under the memory limit.
+func subOp(line string) string {
+	out, _, status, _ := runLimited([]string{selfPath()}, []byte(line+"\n"))
+	out = strings.TrimRight(out, "\n")
+	i := strings.Index(out, " => ")
+	if status != 0 || i < 0 || strings.Contains(out, "\n") {
+		return "CRASH"
+	}
+	return out[i+len(" => "):]
+}
+
+func init() {
+	register("elf", func(t *tokens) string {
+		content := t.hex()
+		addrs := t.addrList()
+		return withTempFile(content, func(path string) string {
+			view, fill := elfView(path)
+			if fill > maxInProcessAlloc {
+				return view + " ;; skipped:alloc"
+			}
+			return view + " ;; " + elfOutcome(path, addrs)
+		})
+	})
+	register("elfout", func(t *tokens) string {
+		content := t.hex()
+		addrs := t.addrList()
+		return withTempFile(content, func(path string) string {
+			return elfOutcome(path, addrs)
+		})
+	})
+	register("elfsub", func(t *tokens) string {
+		rest := t.rest()
+		t2 := &tokens{toks: rest}
+		content := t2.hex()
+		t2.addrList()
+		if !t2.done() {
+			panic(parseError("trailing tokens"))
+		}
+		view := withTempFile(content, func(path string) string {
+			v, _ := elfView(path)
+			return v
+		})
+		return view + " ;; " + subOp("elfout "+strings.Join(rest, " "))
+	})
+}
